@@ -137,6 +137,10 @@ struct Ctx {
     stalls: Vec<Stall>,
     events_in_call: u64,
     events_since_check: u64,
+    /// time limit of the running call, time of its first clock read, events since it passed
+    limit_ns: Option<u64>,
+    t0: Option<u64>,
+    events_after_deadline: u64,
     samples_total: u64,
     queries_per_motion: f64,
     event_cap: u64,
@@ -195,13 +199,19 @@ fn seam_event(ev: Ev) {
         // bounded liveness: events since the last deadline check (or the start of the call) may
         // not exceed 100x the analytic maximum of one iteration, (4 + 2*nodes) motion checks
         let cap = (100.0 * (4.0 + 2.0 * c.samples_total as f64) * (c.queries_per_motion + 2.0)).min(c.event_cap as f64);
-        (adv, c.in_call && c.events_since_check as f64 > cap)
+        // ... and once the time limit has passed, the call must return within the same bound
+        if let (Some(t0), Some(lim)) = (c.t0, c.limit_ns) {
+            if c.now.saturating_sub(t0) > lim {
+                c.events_after_deadline += 1;
+            }
+        }
+        (adv, c.in_call && (c.events_since_check as f64 > cap || c.events_after_deadline as f64 > cap))
     });
     if adv > 0 {
         oxmpl::verif::advance(adv);
     }
     if over {
-        std::panic::panic_any(Abort("event cap exceeded since the last deadline check (no progress to a return)".into()));
+        std::panic::panic_any(Abort("event cap exceeded (since the last deadline check, or since the time limit passed): no progress to a return".into()));
     }
 }
 
@@ -660,6 +670,9 @@ fn run_typed<R: Raw>(scn: &Scenario, opts: &RunOpts) -> Outcome {
             stalls: vec![],
             events_in_call: 0,
             events_since_check: 0,
+            limit_ns: None,
+            t0: None,
+            events_after_deadline: 0,
             samples_total: 0,
             queries_per_motion: {
                 let l = inner.get_longest_valid_segment_length();
@@ -684,6 +697,9 @@ fn run_typed<R: Raw>(scn: &Scenario, opts: &RunOpts) -> Outcome {
                 c.times.push(now);
                 c.events_in_call += 1;
                 c.events_since_check = 0;
+                if c.t0.is_none() {
+                    c.t0 = Some(now);
+                }
             }
         })
     })));
@@ -722,6 +738,16 @@ fn run_typed<R: Raw>(scn: &Scenario, opts: &RunOpts) -> Outcome {
             c.n_phase = [0; 3];
             c.events_in_call = 0;
             c.events_since_check = 0;
+            c.t0 = None;
+            c.events_after_deadline = 0;
+            c.limit_ns = match call {
+                CallSpec::Solve { timeout_ns, .. } => Some(*timeout_ns),
+                CallSpec::Construct { .. } => {
+                    let t = scn.planner.prm_timeout_s * 1e9;
+                    if t >= 0.0 && t < 1e18 { Some(t.ceil() as u64) } else { None }
+                }
+                _ => None,
+            };
             c.in_call = true;
             c.stalls = match call {
                 CallSpec::Solve { stalls, .. } | CallSpec::Construct { stalls } => stalls.clone(),
